@@ -7,6 +7,11 @@
 // type contributes its grid; thorough: the complete 2^16 x 2^16 square).
 //
 // MC_PART=1 (default): T in {i8,u8,i16,u16};  MC_PART=2: T in {i32,u32,i64,u64}.
+// MC_PART=3 (round 2): long long and unsigned long long (types distinct from int64_t/uint64_t
+// = long/unsigned long here) against all ten builtin integer types, both argument orders: with
+// parts 1 and 2 that is every ordered pair of the ten types tetl's builtin_integer accepts.
+// Round 2 also adds the runs-of-ones values (c14_common.hpp: extra()) of 32/64-bit types:
+// against the edge values in the quick tier, the complete (lattice u runs)^2 square in thorough.
 #include "c14_common.hpp"
 
 #include <etl/numeric.hpp>
@@ -115,7 +120,7 @@ void cmp_square16(Ctx& c, Set const& rows)
 template <typename To, typename From>
 void range_pair(Ctx& c)
 {
-    Set const& A = full<From>();
+    Set const& A = full2<From>();
     auto cls     = +[](V x) {
         std::string s = std::is_signed_v<From> ? "from_signed" : "from_unsigned";
         s += std::is_signed_v<To> ? "+to_signed" : "+to_unsigned";
@@ -144,30 +149,56 @@ void range_pair(Ctx& c)
     }
 }
 
+using ll  = long long;
+using ull = unsigned long long;
+
+template <typename T>
+std::string jname()
+{
+    if constexpr (std::is_same_v<T, ll>) { return "ll"; }
+    if constexpr (std::is_same_v<T, ull>) { return "ull"; }
+    return tname<T>();
+}
+
 template <typename T>
 void add_jobs(mc::Main& m)
 {
-    std::string const t = tname<T>();
+    std::string const t = jname<T>();
     // a 16-bit type against a 32/64-bit type: the 2^16 axis only in the thorough tier
     m.job("cmp-" + t + "-vs-8", {"quick", "thorough"}, [](mc::Reporter& r) {
         Ctx c(r);
         bool const w = wide16_default();
-        cmp_pair<T, i8>(c, pair_space<T, i8>(w));
-        cmp_pair<T, u8>(c, pair_space<T, u8>(w));
+        Runs const e = runs_default(r, Runs::cross);
+        cmp_pair<T, i8>(c, pair_space2<T, i8>(w, e));
+        cmp_pair<T, u8>(c, pair_space2<T, u8>(w, e));
     });
     m.job("cmp-" + t + "-vs-16", {"quick", "thorough"}, [](mc::Reporter& r) {
         Ctx c(r);
         bool const w = wide16_default() && (sizeof(T) <= 2 || r.thorough());
-        cmp_pair<T, i16>(c, pair_space<T, i16>(w));
-        cmp_pair<T, u16>(c, pair_space<T, u16>(w));
+        Runs const e = runs_default(r, Runs::cross);
+        cmp_pair<T, i16>(c, pair_space2<T, i16>(w, e));
+        cmp_pair<T, u16>(c, pair_space2<T, u16>(w, e));
     });
     m.job("cmp-" + t + "-vs-32-64", {"quick", "thorough"}, [](mc::Reporter& r) {
         Ctx c(r);
         bool const w = wide16_default() && r.thorough();
-        cmp_pair<T, i32>(c, pair_space<T, i32>(w));
-        cmp_pair<T, u32>(c, pair_space<T, u32>(w));
-        cmp_pair<T, i64>(c, pair_space<T, i64>(w));
-        cmp_pair<T, u64>(c, pair_space<T, u64>(w));
+        Runs const e = runs_default(r, Runs::square);
+        cmp_pair<T, i32>(c, pair_space2<T, i32>(w, e));
+        cmp_pair<T, u32>(c, pair_space2<T, u32>(w, e));
+        cmp_pair<T, i64>(c, pair_space2<T, i64>(w, e));
+        cmp_pair<T, u64>(c, pair_space2<T, u64>(w, e));
+    });
+    m.job("cmp-" + t + "-vs-ll-ull", {"quick", "thorough"}, [](mc::Reporter& r) {
+        Ctx c(r);
+        bool const w = wide16_default() && r.thorough();
+        Runs const e = runs_default(r, Runs::square);
+        cmp_pair<T, ll>(c, pair_space2<T, ll>(w, e));
+        cmp_pair<T, ull>(c, pair_space2<T, ull>(w, e));
+    });
+    m.job("range-to-ll-ull-from-" + t, {"quick", "thorough"}, [](mc::Reporter& r) {
+        Ctx c(r);
+        range_pair<ll, T>(c);
+        range_pair<ull, T>(c);
     });
     m.job("range-from-" + t, {"quick", "thorough"}, [](mc::Reporter& r) {
         Ctx c(r);
@@ -204,6 +235,9 @@ int main(int argc, char** argv)
     add_jobs<u8>(m);
     add_jobs<i16>(m);
     add_jobs<u16>(m);
+#elif MC_PART == 3
+    add_jobs<ll>(m);
+    add_jobs<ull>(m);
 #else
     add_jobs<i32>(m);
     add_jobs<u32>(m);
